@@ -211,7 +211,10 @@ def calc_phase_permutation(
 
     moved = set()
     swaps = 0
+    ndim = len(parities)
     for ax in perm:
+        # axes may be given counting from the end
+        ax = ax % ndim
         # we are moving charge at ax to the beginning
         if parities[ax]:
             # if it is odd, count how many odd charges it crosses
